@@ -29,6 +29,7 @@ RULES = {
     "C13.R5": lambda ctx: bldrules.contents_resize(ctx, "C13.R5"),
     "C13.R5c": lambda ctx: bldrules.contents_predicates(ctx, "C13.R5c"),
     "C13.R5b": lambda ctx: bldrules.add_with_id(ctx, "C13.R5b"),
+    "C13.R0": lambda ctx: __import__("rules.foundations", fromlist=["x"]).accessors(ctx, "C13.R0", None),
     "C13.R6": r6,
 }
 
